@@ -66,12 +66,14 @@ def rows_selected(res, pts, Mk, order):
 
 
 def register(reg):
+    register_nearest_data(reg)
     f = reg.field
     for nm in ("input_grid", "output_grid"):
         f(nm, TOpt(TRef("GridBase")))
     for nm in ("input_mask", "output_mask", "downstream_mask"):
         f(nm, TOpt(TObj("mask")))
     f("_out_mask_checked", Bool)
+    f("ids", TOpt(TObj("ids")))
     f("transformer", TOpt(TObj("transformer")))
 
     reg.add(Contract("iface:GridBase.data_points", params={}, note="property: ghost array DP(grid), one row per data location in the grid's memory order (C14)",
@@ -118,11 +120,96 @@ def register(reg):
                 ))
 
 
+# =================================================================================================
+# RegridNearest._get_data (C16.2): which source value is written to which target location.  The tree's answer `ids` is an arbitrary
+# integer vector (scipy assumed); proved is the composition around it: compress the input in the *input* grid's memory order, gather,
+# lay the result out in the *output* grid's memory order under the output mask.
+# =================================================================================================
+RN = f"{R}.RegridNearest"
+IDS = z3.Function("regrid_ids", sv.IntS, sv.IntS)            # ids[k]: position in the compressed input that serves the k-th output location
+NIDS = z3.Const("regrid_n_ids", sv.IntS)
+
+
+def register_nearest_data(reg):
+    reg.add(Contract("iface:GridBase.data_shape", params={}, note="property: extents of the data array", pure=True, verify=False,
+                     result_fn=lambda ctx: sv.STup([sv.SInt(DS(ctx.self.e, z3.IntVal(k))) for k in range(ctx.ex.cur_contract.grid_rank)])))
+    ids = SArr((NIDS,), lambda idx: IDS(idx[0]), "int", ident="ids")
+    for d in (1, 2):
+        gi = sv.SRef(z3.Int("rn.ingrid"), "GridBase")
+        go = sv.SRef(z3.Int("rn.outgrid"), "GridBase")
+        IN = arr.fresh_arr(f"RNIN{d}", d + 1, "real", shape=(z3.IntVal(1),) + tuple(shape_of(gi, d)))
+        for kn, mk in mask_kinds(f"RNM{d}", d, shape_of(go, d)).items():
+            if kn in ("None",):
+                continue
+
+            def pre(ctx, gi=gi, go=go, mk=mk, d=d, ids=ids):
+                p, ex, s = ctx.path, ctx.ex, ctx.self
+                p.heap_set(ex, s, "input_grid", gi)
+                p.heap_set(ex, s, "output_grid", go)
+                p.heap_set(ex, s, "output_mask", mk)
+                p.heap_set(ex, s, "input_mask", NONE_)          # unmasked source (masked sources: bounded stand-in)
+                p.heap_set(ex, s, "ids", ids)
+                n_out = arr.size_of(shape_of(go, d))
+                k = z3.Int("rnk")
+                n_in = arr.size_of([z3.IntVal(1)] + shape_of(gi, d))
+                cnts = [n_out]
+                if isinstance(mk, SArr):
+                    cnts = [arr.sel_fns(unmasked_vec(mk, o).ident)[2] for o in ("C", "F")]     # number of unmasked target locations
+                return And(grid_ok(gi, d), grid_ok(go, d), gi.e != go.e, *[n >= 1 for n in shape_of(gi, d) + shape_of(go, d)],
+                           *[NIDS == c_ for c_ in cnts],                                       # one answer per queried (unmasked) target location
+
+                           z3.ForAll([k], Implies(And(0 <= k, k < NIDS), And(0 <= IDS(k), IDS(k) < n_in))))     # KDTree.query answers with valid positions
+
+            def post(ctx, r, gi=gi, go=go, mk=mk, d=d, IN=IN):
+                if not (isinstance(r, SArr) and r.rank == d):
+                    return {"result has the output grid's rank": z3.BoolVal(False)}
+                idx = [z3.Int(f"ri{k}") for k in range(d)]
+                so, si = shape_of(go, d), [z3.IntVal(1)] + shape_of(gi, d)
+
+                def clause(oi, oo):
+                    flat_pos = arr.ravel(oo, so, idx)
+                    if isinstance(mk, SArr):
+                        _sel, rnk, _cnt = arr.sel_fns(unmasked_vec(mk, oo).ident)
+                        guard, k = Not(mk.at(tuple(idx))), rnk(flat_pos)
+                    else:
+                        guard, k = z3.BoolVal(True), flat_pos
+                    return z3.ForAll(idx, Implies(And(arr.in_box(so, idx), guard), r.at(tuple(idx)) == IN.at(arr.unravel(oi, si, IDS(k)))))
+
+                return {"shape of the output grid": And(*[r.shape[k] == so[k] for k in range(d)]),
+                        "target location j (output memory order, unmasked locations counted) receives input position ids[j] (input memory order)":
+                        And(*[Implies(And(ORDER_C(gi.e) == (oi == "C"), ORDER_C(go.e) == (oo == "C")), clause(oi, oo)) for oi in "CF" for oo in "CF"])}
+
+            c = Contract(
+                f"{RN}._get_data", self_cls="RegridNearest", props=["C16.2"], params={"time": sv.Time, "target": TOpt(TRef("IInput"))},
+                requires=pre, ensures=post, modifies=lambda ctx: [], pure=True,
+                axioms=lambda ctx, mk=mk: (sum([arr.sel_axioms(unmasked_vec(mk, o)) for o in ("C", "F")], []) if isinstance(mk, SArr) else []) + arr.ravel_axioms(),
+                raises={"FinamDataError": lambda ctx: z3.BoolVal(False)},
+                virtual=["pull_data"], name=f"_get_data<nearest,d={d},{kn}>", primary=False,
+                inline_calls=[f"{c_mask.M}.mask_specified", f"{c_mask.M}.is_masked_array", f"{c_mask.M}.to_compressed", f"{c_mask.M}.from_compressed",
+                              f"{c_mask.M}.to_masked", f"{AR}._check_in_data"],
+            )
+            c.grid_rank = d
+            c.regrid_in = IN
+            reg.add(c)
+    # the pulled source data: an arbitrary array with a time axis of length one over the input grid's data shape
+    reg.add(Contract("iface:RegridNearest.pull_data", params={"time": sv.Time, "target": TOpt(TRef("IInput"))}, note="method", verify=False, pure=True,
+                     result_fn=lambda ctx: ctx.ex.cur_contract.regrid_in))
+
+
 def install(ex):
-    pass
+    def gather(ex, base, idx, path, node):
+        if isinstance(base, SArr) and base.rank == 1 and isinstance(idx, SArr) and idx.rank == 1 and idx.dtype == "int":
+            k = z3.Int(sv.uid("gk"))
+            ex.safe(path, "index", z3.ForAll([k], Implies(And(0 <= k, k < idx.shape[0]), And(0 <= idx.at((k,)), idx.at((k,)) < base.shape[0]))), node)
+            return SArr(idx.shape, lambda i, base=base, idx=idx: base.at((idx.at(i),)), base.dtype, ident=None, units=base.units)
+        return None
+
+    ex.hooks.setdefault("subscript", []).insert(0, gather)
 
 
-EXPLAIN = {"C16": "VCs from the real ARegridding._need_mask / _get_in_coords / _get_out_coords (pairing of coordinate rows with the compression order) "
+EXPLAIN = {"C16": "VCs from the real ARegridding._need_mask / _get_in_coords / _get_out_coords (pairing of coordinate rows with the compression order) and "
+                  "RegridNearest._get_data (target location j in the output grid's memory order, unmasked locations counted, receives position ids[j] of the input "
+                  "flattened in the input grid's memory order; unmasked sources, ranks 1-2, every output mask kind) "
                   "plus the bounded native stand-in bnd_regrid.py (real links through RegridNearest / RegridLinear against a coordinate-based oracle)"}
 BOUNDED = {"C16": [{"name": "regrid-links", "script": "replay/drivers/bnd_regrid.py", "args": ["--json"], "timeout": 1200},
                    {"name": "grid-layouts", "script": "replay/drivers/bnd_grids.py", "args": ["--json"], "timeout": 3000}]}
